@@ -23,8 +23,10 @@ def scenario_sig(sc, clsname):
     """signature used to match known findings: structural features of the scenario, not its numbers"""
     ts = sc["tsave"]
     feats = []
-    if ts and ts[0] == sc["t0"]:
+    if ts and not isinstance(ts[0], list) and ts[0] == sc["t0"]:
         feats.append("save_at_start")
+    if "ops" in sc:
+        feats.append("script:" + "+".join(sc["ops"]))
     return {"cls": clsname, "kind": sc.get("kind", ""), "features": ",".join(feats)}
 
 
@@ -100,6 +102,26 @@ def run(tier):
     from . import driver_trace
     driver_trace.report(rep, traces, wd, lambda tid: "cls=%s scenario=%s" % (meta[tid][1], json.dumps(
         {k: meta[tid][0][k] for k in ("prof", "t0", "tsave", "tot", "maxit")})))
+    # multi-call scripts on one solver object (the C08 instance of Driver.tla): every call must satisfy the C07 contract too,
+    # with the stop dictionary / save list objects shared between calls as a user script shares them
+    from . import c08
+    gen2 = os.path.join(wd, "gen_scripts.ndjson")
+    res2 = core.tlc("MC_Driver", "MC_Driver_c08.cfg", workers=1, env={"GEN_FILE": gen2}, timeout=3000)
+    core.tlc_must_pass(res2, "MC_Driver C08 instance")
+    rep.add_tlc("MC_Driver/C08-scripts", res2)
+    for k, sc in enumerate(core.read_ndjson(gen2)):
+        if len(sc["calls"]) < 2 or (tier == "quick" and k % 2):
+            continue
+        classes = D.KIND_CLASSES[sc["kind"]]
+        cn = classes[k % len(classes)]
+        raws, rels, _ = c08.run_script(D, cn, sc, variant=k)
+        rid += 1
+        calls = D.project(raws, rid)
+        recs.append({"id": rid, "kind": "family", "calls": calls, "rels": []})
+        meta[rid] = ({"kind": sc["kind"], "prof": sc["prof"], "t0": sc["t0"], "tsave": [c["tsave"] for c in sc["calls"]],
+                      "tot": [c["tot"] for c in sc["calls"]], "maxit": [c["maxit"] for c in sc["calls"]],
+                      "ops": [c["op"] for c in sc["calls"]]}, cn, [D.describe(r) for r in raws])
+        rep.evaluations += len(raws)
     rep.extra["replay_wall_s"] = round(time.time() - t_start, 1)
     judge(rep, recs, meta, wd, D)
     return rep.finish()
